@@ -120,6 +120,7 @@ type c18World struct {
 	overtaken      bool
 	rotated        bool
 	sessionRaced   bool
+	disconnected   bool
 
 	adminStore       *EtcdStore
 	adminStoreCancel context.CancelFunc
@@ -140,6 +141,7 @@ type c18Mgr struct {
 	inRel  map[int]bool
 	closed bool // ReleaseAll was called
 	unnoticed bool // did not let go of an ended session within 5 s (see awaitNoticed)
+	reqCancels []context.CancelFunc // contexts of finished Acquire calls, still alive
 }
 
 func (m *c18Mgr) lm() *LeaseManager {
@@ -163,11 +165,31 @@ func (m *c18Mgr) owns(r int) bool {
 	return m.glm.Owns(fmt.Sprintf("g%d", r))
 }
 
+// acquire runs under its own cancellable context (in the broker: the connection's context);
+// the context stays alive after the call and is cancelled by a later "client disconnects".
 func (m *c18Mgr) acquire(r int) error {
+	ctx, cancel := context.WithCancel(context.Background())
+	defer func() {
+		m.w.mu.Lock()
+		m.reqCancels = append(m.reqCancels, cancel)
+		m.w.mu.Unlock()
+	}()
 	if m.plm != nil {
-		return m.plm.Acquire(context.Background(), "orders", int32(r))
+		return m.plm.Acquire(ctx, "orders", int32(r))
 	}
-	return m.glm.Acquire(context.Background(), fmt.Sprintf("g%d", r))
+	return m.glm.Acquire(ctx, fmt.Sprintf("g%d", r))
+}
+
+// disconnect cancels the contexts of this manager's finished Acquire calls.
+func (m *c18Mgr) disconnect() int {
+	m.w.mu.Lock()
+	cs := m.reqCancels
+	m.reqCancels = nil
+	m.w.mu.Unlock()
+	for _, c := range cs {
+		c()
+	}
+	return len(cs)
 }
 
 func (m *c18Mgr) release(r int) {
@@ -1007,6 +1029,7 @@ func (w *c18World) cleanup() {
 	_ = w.waitQuiet()
 	for _, m := range append(append(append([]*c18Mgr{}, w.mgrs...), w.dead...), w.zombies...) {
 		m.cancel()
+		m.disconnect()
 	}
 	if w.adminStoreCancel != nil {
 		w.adminStoreCancel()
@@ -1481,6 +1504,14 @@ func TestVF_C18_Schedules(t *testing.T) {
 				} else {
 					slot = rapid.IntRange(0, nm-1).Draw(rt, "slot")
 				}
+				if rapid.Bool().Draw(rt, "disconnectFirst") {
+					// the clients whose requests made this broker acquire its leases have gone away
+					if n := w.mgrs[slot].disconnect(); n > 0 {
+						ops = append(ops, fmt.Sprintf("clients-disconnect(b%d,%d contexts)", slot, n))
+						w.trace = append(w.trace, fmt.Sprintf("request contexts of b%d cancelled", slot))
+						w.disconnected = true
+					}
+				}
 				did, err := w.expire(w.mgrs[slot])
 				fail("", err)
 				if did {
@@ -1624,6 +1655,9 @@ func TestVF_C18_Schedules(t *testing.T) {
 		}
 		if w.rotated {
 			st.Class("session-rotated-while-an-acquire-answer-is-undelivered")
+		}
+		if w.disconnected {
+			st.Class("request-contexts-cancelled-before-a-session-loss")
 		}
 		if w.sessionRaced {
 			st.Class("session-ends-while-a-concurrent-acquire-installs-its-own-session")
